@@ -226,7 +226,15 @@ async fn eval_vec(vec: &Vec<Expr>, context: &mut EvalContext<'_>) -> Result<Valu
 fn int(value: Value) -> Result<Value> {
     match value.clone() {
         Value::Int(_) => Ok(value),
-        Value::Float(val) => Ok((val as i128).into()),
+        Value::Float(val) => {
+            let truncated = val.trunc();
+            // -2^127 and 2^127 are exactly representable, anything in between fits an i128
+            if truncated >= i128::MIN as f64 && truncated < -(i128::MIN as f64) {
+                Ok((truncated as i128).into())
+            } else {
+                Err(Error::invalid_cast(value, "Value::Int"))
+            }
+        }
         Value::Decimal(val) => val
             .to_i128()
             .ok_or_else(|| Error::invalid_cast(value, "Value::Int"))
@@ -259,7 +267,9 @@ fn float(value: Value) -> Result<Value> {
 
 fn dec(value: Value) -> Result<Value> {
     match value.clone() {
-        Value::Int(val) => Ok(Value::Decimal(val.into())),
+        Value::Int(val) => Decimal::from_i128(val)
+            .map(Value::Decimal)
+            .ok_or_else(|| Error::invalid_cast(value, "Value::Decimal")),
         Value::Float(val) => Decimal::try_from(val)
             .map(Value::Decimal)
             .map_err(|_| Error::invalid_cast(value, "Value::Float")),
